@@ -301,6 +301,35 @@ static int ranges_overlap(uintptr_t a0, uintptr_t a1, uintptr_t b0, uintptr_t b1
     return a0 < a1 && b0 < b1 && a0 < b1 && b0 < a1;
 }
 
+#include <setjmp.h>
+static sigjmp_buf g_touch_jmp;
+static void touch_segv(int sig)
+{
+    (void)sig;
+    siglongjmp(g_touch_jmp, 1);
+}
+/* number of pages of [p, p+n) that cannot be written */
+static int touch_faults(char *p, size_t n)
+{
+    struct sigaction sa, old_segv, old_bus;
+    int faults = 0;
+    size_t o;
+    memset(&sa, 0, sizeof sa);
+    sa.sa_handler = touch_segv;
+    sigaction(SIGSEGV, &sa, &old_segv);
+    sigaction(SIGBUS, &sa, &old_bus);
+    for (o = 0; o < n; o += 4096) {
+        if (sigsetjmp(g_touch_jmp, 1) == 0) {
+            volatile char *q = p + o;
+            *q = (char)0x5a;
+        } else
+            faults++;
+    }
+    sigaction(SIGSEGV, &old_segv, NULL);
+    sigaction(SIGBUS, &old_bus, NULL);
+    return faults;
+}
+
 static void child_case(char *line, FILE *out)
 {
     char lp[32] = "malloc";
@@ -489,6 +518,11 @@ static void child_case(char *line, FILE *out)
     }
     ABT_finalize();
     g_ledger_on = 0;
+    /* a user-supplied stack is handed back as it was given: every byte writable again (no guard page left) */
+    int ugp = 0;
+    for (i = 0; i < g_nt; i++)
+        if (g_t[i].kind == 'U')
+            ugp += touch_faults(g_t[i].ubase, g_t[i].size + 4096 + 64);
     int leaks = 0;
     for (i = 0; i < g_nled; i++)
         leaks += g_led[i].live;
@@ -525,7 +559,7 @@ static void child_case(char *line, FILE *out)
         fprintf(out, " al=%d loc=%d f16=%d rel=%s", (int)(t->desc % 64), loc,
                 t->ran && (t->frame_addr % 16 == 0), t->rel);
     }
-    fprintf(out, " ; ov=%d leak=%d inv=%ld\n", overlaps, leaks, g_invalid_frees);
+    fprintf(out, " ; ov=%d leak=%d inv=%ld ugp=%d\n", overlaps, leaks, g_invalid_frees, ugp);
     fflush(out);
 }
 
